@@ -48,6 +48,10 @@ def make(name: str, *args):
 
     if name == "C04":
         return ConcatScenario("C04")
+    if name == "C11":
+        from .lifecycle import LifecycleScenario
+
+        return LifecycleScenario()
     if name in ("C05", "C09", "C12"):
         weights = {"C05": (3, 2), "C09": (3, 1), "C12": (3, 1)}[name]
         return Mix(name, [(weights[0], WorldScenario(name)), (weights[1], ConcatScenario(name))])
